@@ -254,16 +254,18 @@ impl<T> OneShotShared<T> {
       // If empty and all senders are gone, it's disconnected.
       if current_state == STATE_EMPTY && self.sender_count.load(Ordering::Acquire) == 0 {
         // Attempt to transition to CLOSED if not already done by last sender drop
-        self
-          .state
-          .compare_exchange(
-            STATE_EMPTY,
-            STATE_CLOSED,
-            Ordering::Relaxed,
-            Ordering::Relaxed,
-          )
-          .ok();
-        Err(TryRecvError::Disconnected)
+        match self.state.compare_exchange(
+          STATE_EMPTY,
+          STATE_CLOSED,
+          Ordering::Relaxed,
+          Ordering::Acquire,
+        ) {
+          // The state moved on between our two loads: the last sender completed its
+          // send (EMPTY -> WRITING -> SENT) before it went away. Look again instead of
+          // reporting Disconnected while a value is pending.
+          Err(STATE_SENT) | Err(STATE_WRITING) => self.try_recv(),
+          _ => Err(TryRecvError::Disconnected),
+        }
       } else {
         Err(TryRecvError::Empty) // Not ready yet, or senders still active / writing
       }
@@ -294,16 +296,16 @@ impl<T> OneShotShared<T> {
           }
           // Check again if all senders dropped AFTER deciding it's Empty
           if current_state == STATE_EMPTY && self.sender_count.load(Ordering::Acquire) == 0 {
-            self
-              .state
-              .compare_exchange(
-                STATE_EMPTY,
-                STATE_CLOSED,
-                Ordering::Relaxed,
-                Ordering::Relaxed,
-              )
-              .ok();
-            return Poll::Ready(Err(RecvError::Disconnected));
+            match self.state.compare_exchange(
+              STATE_EMPTY,
+              STATE_CLOSED,
+              Ordering::Relaxed,
+              Ordering::Acquire,
+            ) {
+              // A send completed between the two loads: the value is pending, take it.
+              Err(STATE_SENT) | Err(STATE_WRITING) => continue,
+              _ => return Poll::Ready(Err(RecvError::Disconnected)),
+            }
           }
 
           self.receiver_waker.register(cx.waker());
